@@ -11,6 +11,8 @@ import "time"
 // VerifData returns a copy of the data the fetcher currently caches: the pool
 // of unused cookies and the session keys.
 func (f *Fetcher) VerifData() Data {
+	f.mu.Lock()
+	defer f.mu.Unlock()
 	d := f.data
 	d.Cookie = append([][]byte(nil), f.data.Cookie...)
 	return d
